@@ -19,11 +19,11 @@ RULE = (
     "level maps/mappers, TypedTree str / objects / derived, FileSystemTree}, tree spec with clones at any relative "
     "position / explicit ids / kinds / unicode, 3-6 storage configurations: key_map in {default, off, custom injective "
     "dict}, value_map in {default, off, custom dict listing all values}, compression in {False, True, STORED, DEFLATED, "
-    "BZIP2, LZMA}, target in {str path, Path, open UTF-8 text file, open ASCII-only text file, StringIO}, user meta, "
+    "BZIP2, LZMA}, target in {str path, Path (file names ending in .nutree, .json, .JSON, .zip or nothing), open UTF-8 text file, open ASCII-only text file, StringIO}, user meta, "
     "optionally an earlier save() of the same tree that was handed the same meta dict object with other maps; labels "
     "include quotes, backslash, newline, blanks, the empty string and a lone surrogate). Oracle: loaded tree has the "
     "loading class, same shape/order, data equal by value, kinds, clone partition, value-derived data_ids, file_meta "
-    "carries header + user entries; metamorphic: all configurations load to the identical observation; the source is "
+    "carries header + user entries; files of plain string trees also load into TypedTree (default kind) and files of typed string trees into Tree; metamorphic: all configurations load to the identical observation; the source is "
     "unchanged. Non-trivial: >= 3 nodes and >= 1 clone group; distinct = distinct case."
 )
 ASSUMPTIONS = [
@@ -107,6 +107,39 @@ def run(case, rec):
                     rec.fail(f"second-generation:raises:{type(e).__name__}", {"cfg": cfg, "exc": repr(e)[:200]})
             elif v != first:
                 rec.fail("metamorphic:options-change-result", cfg)
+            # "a tree of the loading class": a file written by a plain string tree loads into a TypedTree (no mapper
+            # needed for string entries; every node gets the default kind), and vice versa with the one-line mapper
+            if prof.name in ("str", "typed_str") and not cfg.get("preload"):
+                other = serial.Profile("typed_str" if prof.name == "str" else "str")
+                rec.evals += 1
+                try:
+                    kw2 = {}
+                    if prof.name == "typed_str":
+                        kw2["mapper"] = serial.str_mapper
+                    kind_, val_, _kw = src
+                    if kind_ == "path":
+                        lo = other.cls().load(val_, **kw2)
+                    elif kind_ in ("file", "file-ascii"):
+                        with open(val_, "r", encoding="utf8" if kind_ == "file" else "ascii") as fp:
+                            lo = other.cls().load(fp, **kw2)
+                    else:
+                        import io as _io
+
+                        lo = other.cls().load(_io.StringIO(val_), **kw2)
+                except Exception as e:  # noqa: BLE001
+                    rec.fail(f"cross-class-load:raises:{type(e).__name__}:{prof.name}->{other.name}", {"cfg": cfg, "exc": repr(e)[:200]})
+                    continue
+                if type(lo) is not other.cls():
+                    rec.fail("cross-class-load:class", type(lo).__name__)
+                    continue
+                vo = other.view(lo)
+
+                def rekind(vw, k):
+                    return [[x[0], x[1], k, rekind(x[3], k)] for x in vw]
+
+                want = rekind(src_view["tree"], "child" if other.typed else None)
+                if vo["tree"] != want or vo["partition"] != src_view["partition"]:
+                    rec.fail(f"cross-class-load:{prof.name}->{other.name}", {"cfg": cfg, "src": src_view["tree"], "loaded": vo["tree"]})
 
 
 def _cfg_tag(cfg):
